@@ -223,6 +223,63 @@ def run(ctx):
                 rounded = any(c_.endswith("::round") for c_ in d_.calls)
                 ctx.ob("ENCODE", f"{b_.name.split('::')[-1]}|round-before-cast", rounded, f"{b_.name}: a float is converted to {rv.get('to')} " + ("after round()" if rounded else "by truncation (no round() on the way): bytes decoded to values just below an integer step are written one lower"), b_.file, int(s_["sp"]["at"].split(":")[-2]), sample=(n_casts == 1))
     ctx.floor("ENCODE", "float-to-integer casts in the attribute encoders", n_casts, 2)
+    # the scale of the normalised-byte encoders: value * 255 (unsigned), (value + 1) * 127.5 (signed): the factor is
+    # evaluated from the constants it is written with (255.0, MAX_BYTE_FLOAT / 2.0, a named constant ...)
+    import struct as _struct
+
+    def _fconst(ix_, o, depth=0):
+        if depth > 8 or not isinstance(o, dict):
+            return None
+        k = o.get("k")
+        if isinstance(k, dict) and k.get("ty") == "f32" and "bits" in k:
+            return _struct.unpack("<f", _struct.pack("<I", int(k["bits"]) & 0xFFFFFFFF))[0]
+        if isinstance(k, dict) and "bits" in k and k.get("ty") in ("u8", "u16", "u32", "i32", "usize"):
+            return None
+        r = ix_.resolve(o)
+        if r[0] == "rv" and r[1]["k"] == "bin" and r[1]["op"] in ("Div", "Mul", "Add", "Sub"):
+            a, b = _fconst(ix_, r[1]["a"], depth + 1), _fconst(ix_, r[1]["b"], depth + 1)
+            if a is None or b is None:
+                return None
+            try:
+                return {"Div": a / b, "Mul": a * b, "Add": a + b, "Sub": a - b}[r[1]["op"]]
+            except ZeroDivisionError:
+                return None
+        if r[0] == "rv" and r[1]["k"] == "use":
+            return _fconst(ix_, r[1]["a"], depth + 1)
+        if r[0] == "cast" and r[1].get("ck") == "IntToFloat":
+            ri = ix_.resolve(r[1]["a"])
+            return float(ri[1]) if ri[0] == "const" else None
+        return None
+
+    for fn, want_scale, bias in (("write_byte_float4", 255.0, None), ("write_tangent", 127.5, 1.0)):
+        b_ = next((prog.body(nme) for nme in prog.bodies.keys() if nme.endswith("::" + fn) and "MDL" in nme), None)
+        if not b_:
+            ctx.fail_closed("ENCODE", f"MDL::{fn} not found")
+            continue
+        scales = []
+        for xb in prog.deep_bodies(b_.name):
+            eix = index_of(xb)
+            for _bi, _si, s_ in xb.stmts():
+                rv = s_.get("rv", {})
+                if not (rv.get("k") == "cast" and rv.get("ck") == "FloatToInt"):
+                    continue
+                # round(X) with X = A * S (either order)
+                r0 = eix.resolve(rv["a"])
+                x_op = r0[1]["args"][0] if r0[0] == "call" and eix.callee(r0[1]).endswith("::round") and r0[1]["args"] else rv["a"]
+                rx = eix.resolve(x_op)
+                sc = None
+                if rx[0] == "rv" and rx[1]["k"] == "bin" and rx[1]["op"] == "Mul":
+                    for s_side, a_side in ((rx[1]["b"], rx[1]["a"]), (rx[1]["a"], rx[1]["b"])):
+                        v = _fconst(eix, s_side)
+                        if v is not None:
+                            sc = v
+                            if bias is not None:
+                                ra = eix.resolve(a_side)
+                                if not (ra[0] == "rv" and ra[1]["k"] == "bin" and ra[1]["op"] == "Add" and bias in (_fconst(eix, ra[1]["a"]), _fconst(eix, ra[1]["b"]))):
+                                    sc = ("no-bias", v)
+                            break
+                scales.append(sc)
+        ctx.ob("ENCODE", f"{fn}|scale", bool(scales) and all(sc == want_scale for sc in scales), f"{fn} scales its components by {scales}; must be {'(v + 1) * ' if bias else 'v * '}{want_scale}", b_.file, b_.line, sample=(fn == "write_tangent"))
     for fn, (n_from, n_bits) in (("write_half4", (4, 4)), ("write_half2", (2, 2))):
         b_ = next((x for nme, x in prog.bodies.items() if nme.endswith("::" + fn) and "MDL" in nme), None)
         if b_:
@@ -303,7 +360,22 @@ def run(ctx):
         ctx.ob("EDIT", "replace|vertex-count", has("vertex_count", {"vertices"}, (), ("::len",)), "mesh.vertex_count = part.vertices.len()", rvb.file, rvb.line)
         ctx.ob("EDIT", "replace|index-count", has("index_count", {"indices"}, (), ("::len",)), "mesh.index_count = part.indices.len()", rvb.file, rvb.line)
         ctx.ob("EDIT", "replace|copies-input", has("vertices", (), {4}) and has("indices", (), {5}), "part.vertices / part.indices are copied from the caller's slices", rvb.file, rvb.line)
-        ctx.ob("EDIT", "replace|updates-headers", any((t_.get("res") or "").endswith("MDL::update_headers") for _bi, t_ in rvb.calls()), "replace_vertices recomputes the headers", rvb.file, rvb.line, trivial=True)
+        # ... on every path: no return of the edit avoids the header recomputation
+        uh_blocks = {bi_ for bi_, t_ in rvb.calls() if (t_.get("res") or "").endswith("MDL::update_headers")}
+
+        def _returns_without(skip):
+            seen, todo = set(), [0]
+            while todo:
+                x = todo.pop()
+                if x in seen or x in skip or rvb.blocks[x]["cleanup"]:
+                    continue
+                seen.add(x)
+                if rvb.blocks[x]["t"]["k"] == "return":
+                    return True
+                todo += list(rvb.succ(x))
+            return False
+
+        ctx.ob("EDIT", "replace|updates-headers", bool(uh_blocks) and not _returns_without(uh_blocks), "replace_vertices recomputes the headers on every path to its return (start indices depend on the sub-mesh ranges just stored, not only on the counts)", rvb.file, rvb.line)
     for fn in ("model::MDL::remove_shape_meshes", "model::MDL::add_shape_mesh"):
         b_ = prog.body(fn)
         ctx.ob("EDIT", f"{fn.split('::')[-1]}|updates-headers", bool(b_) and any((t_.get("res") or "").endswith("MDL::update_headers") for _bi, t_ in b_.calls()), f"{fn} recomputes the headers", b_.file if b_ else None, b_.line if b_ else None, trivial=True)
